@@ -312,6 +312,9 @@ func contractKey(kind, pkg, name string) string {
 	case "extern":
 		return "extern:" + name
 	case "interface":
+		if pkg == "" {
+			return "iface:" + name
+		}
 		return "iface:" + pkg + "." + name
 	case "lemma":
 		return "lemma:" + pkg + "." + name
